@@ -92,6 +92,9 @@ def pick_trial(rng, mdl, want_states=None, p_missing=0.12, p_malformed=0.04):
   for sname, st in sorted(mdl.studies.items()):
     for tid, t in sorted(st['trials'].items()):
       cands.append((sname, tid, t['state']))
+  recent = mdl.__dict__.get('_recent_trials') or []
+  if recent and r >= p_malformed and rng.random() < 0.3:
+    return rng.choice(recent)
   if r < p_malformed:
     if cands and rng.random() < 0.7:
       # near misses: strings that *contain* the name of an existing trial, or spell its
@@ -111,6 +114,17 @@ def pick_trial(rng, mdl, want_states=None, p_missing=0.12, p_malformed=0.04):
 
 
 def gen_call(rng, mdl, weights=None, profile=None):
+  """One call, generated against the model state. Trial-level calls come back to trials
+  that recent calls were about (the same trial met again after its state changed)."""
+  c = _gen_call(rng, mdl, weights, profile)
+  if c.get('trial'):
+    recent = mdl.__dict__.setdefault('_recent_trials', [])
+    recent.append(c['trial'])
+    del recent[:-4]
+  return c
+
+
+def _gen_call(rng, mdl, weights=None, profile=None):
   profile = profile or {}
   weights = weights or DEFAULT_WEIGHTS
   if not mdl.studies and rng.random() < 0.8:
@@ -227,6 +241,44 @@ def gen_call(rng, mdl, weights=None, profile=None):
       delta.append([tid, rng.choice(NAMESPACES), rng.choice(KEYS), val])
     return {'op': op, 'study': sname, 'delta': delta}
   raise ValueError(op)
+
+
+def lifecycle_tail(rng, mdl):
+  """Scripted continuation: one ACTIVE trial is taken through the rest of its life, and after
+  each change of state every trial-level call is repeated on it (a call that was legal a
+  moment ago must now fail, whatever the server remembers about the trial)."""
+  cands = []
+  for sname, st in sorted(mdl.studies.items()):
+    if st['study']['state'] not in ('ACTIVE', 'STATE_UNSPECIFIED'):
+      continue
+    for tid, t in sorted(st['trials'].items()):
+      if t['state'] == 'ACTIVE':
+        cands.append(f'{sname}/trials/{tid}')
+  if not cands:
+    return []
+  t = rng.choice(cands)
+  sname = t.split('/trials/')[0]
+
+  def every_op():
+    return [{'op': 'CheckTrialEarlyStoppingState', 'trial': t, '_es_entry': {'stop': rng.random() < 0.5}},
+            {'op': 'AddTrialMeasurement', 'trial': t, 'm': {'metrics': {'obj': 0.5}, 'steps': 3}},
+            {'op': 'StopTrial', 'trial': t},
+            {'op': 'CompleteTrial', 'trial': t, 'final': {'metrics': {'obj': 0.75}}},
+            {'op': 'UpdateMetadata', 'study': sname, 'delta': [[int(t.rsplit('/', 1)[1]), 'user', 'k', 'v1']]},
+            {'op': 'GetTrial', 'trial': t}]
+  calls = [{'op': 'CheckTrialEarlyStoppingState', 'trial': t, '_es_entry': {'stop': True}},
+           {'op': 'AddTrialMeasurement', 'trial': t, 'm': {'metrics': {'obj': 0.25}, 'steps': 1}}]
+  end = rng.choice(['complete', 'infeasible', 'stop-then-complete'])
+  if end == 'stop-then-complete':
+    calls += [{'op': 'StopTrial', 'trial': t}] + every_op()[:2]
+  if end == 'infeasible':
+    calls.append({'op': 'CompleteTrial', 'trial': t, 'infeasible': True, 'reason': rng.choice(['', 'oom'])})
+  else:
+    calls.append({'op': 'CompleteTrial', 'trial': t, 'final': {'metrics': {'obj': 1.0}}})
+  calls += every_op()
+  calls.append({'op': 'DeleteTrial', 'trial': t})
+  calls += every_op() + [{'op': 'DeleteTrial', 'trial': t}]
+  return calls
 
 
 def pre_state_class(mdl, call):
